@@ -127,12 +127,13 @@ std::string cmd_dettr(const std::vector<std::string>& a) {
 		}
 		ChartToPromela* p = dynamic_cast<ChartToPromela*>(t.getImpl().get());
 		if (p && PeekP::allOf(p)) {
-			// iteration order of the pointer-keyed map: key address, owner document, position in it, prefix
+			// iteration order of the pointer-keyed map: key address, owner document, position in it, prefix, the
+			// DOMDocument of the machine's own generator object (what its md5 is taken from)
 			o << " PMAP=";
 			const char* sep = "";
 			for (auto& kv : *PeekP::allOf(p)) {
 				o << sep << printed(kv.first) << "/" << printed(kv.first->getOwnerDocument()) << "/" << docPos(kv.first)
-				  << "/" << PeekC::prefixOf(kv.second);
+				  << "/" << PeekC::prefixOf(kv.second) << "/" << printed(PeekC::docOf(kv.second));
 				sep = ",";
 			}
 		}
